@@ -36,4 +36,7 @@ def run(ctx):
     T.timestamp_protocol(ctx)
     T.r115_published_values(ctx)
     S.r116_end_after_clock(ctx, sc)
+    # warm-up time and replication end are taken from the replication object (shared rule with C02 / C03 / C06)
+    ctx.uses('experiment')
+    S.replication_frame(ctx, 'R11.9')
     T.reset_completeness(ctx, 'R11.7', ['SimCounter', 'SimTally', 'SimWeightedTally', 'SimPersistent'])
